@@ -4,6 +4,7 @@ mod sim;
 mod vclock;
 mod m_c13;
 mod m_run;
+mod m_state;
 mod oracles;
 mod simnet;
 mod strat;
@@ -51,11 +52,14 @@ fn main() {
         }
     }
     // panics are caught per case; keep stderr quiet
-    std::panic::set_hook(Box::new(|_| {}));
+    if std::env::var("VERIF_PANIC_TRACE").is_err() {
+        std::panic::set_hook(Box::new(|_| {}));
+    }
     let mut out = Out { w: std::io::BufWriter::new(std::io::stdout()), n: 0 };
     match mode.as_str() {
         "c13" => m_c13::run(&args, &mut out),
         "run" => m_run::run(&args, &mut out),
+        "state" => m_state::run(&args, &mut out),
         other => { eprintln!("unknown mode {other}"); std::process::exit(2); }
     }
     out.w.flush().unwrap();
